@@ -8,7 +8,7 @@
 
     Second part: checkers over consecutive rows (windows) and over indexed rows, with their
     soundness lemmas, so that a boolean [vm_compute] run proves a statement about ALL rows. *)
-From Coq Require Import ZArith List String Ascii Bool Lia.
+From Coq Require Import ZArith List String Ascii Bool Lia Sint63.
 Import ListNotations.
 Local Open Scope Z_scope.
 
@@ -112,6 +112,28 @@ Fixpoint rows3 (l : list (list Z)) : option (list row) :=
 
 Definition parse_table (s : string) : option (list row) :=
   match scan s tok0 [] [] with Some l => rows3 l | None => None end.
+
+(** the generator writes every decimal token of a data file as (mantissa, exponent), two
+    primitive 63-bit integers (a 10000-row file then loads in seconds; decimal [Z] literals or a
+    400 kB string literal take minutes or overflow coqc's stack); value = mantissa * 10^exponent *)
+Definition raw_row := (int * int * int * int * int * int)%type.
+Definition dec_value (m e : int) : option Z :=
+  let k := SDIGITS + Sint63.to_Z e in
+  if k <? 0 then None else Some (Sint63.to_Z m * 10 ^ k).
+Definition row_of_raw (r : raw_row) : option row :=
+  let '(m1, e1, m2, e2, m3, e3) := r in
+  match dec_value m1 e1, dec_value m2 e2, dec_value m3 e3 with
+  | Some a, Some b, Some c => Some (a, b, c)
+  | _, _, _ => None
+  end.
+Fixpoint rows_of_raw (l : list raw_row) : option (list row) :=
+  match l with
+  | [] => Some []
+  | r :: t => match row_of_raw r, rows_of_raw t with
+              | Some a, Some b => Some (a :: b)
+              | _, _ => None
+              end
+  end.
 
 (** a file is embedded as consecutive chunks of whole lines (a single string literal of 400 kB
     overflows coqc's stack); the table is the concatenation of the parsed chunks *)
